@@ -215,6 +215,46 @@ def check(ctx) -> None:
                     ctx.instance("C18-Z3", "confident_cnt counter on the keeping branch", g.loc(n), ok=keep)
                     if not keep:
                         ctx.finding("C18-Z3", "stats:confident_cnt:guard", g.loc(n), "confident_cnt is not incremented exactly on the branch that keeps the row solved")
+    # confident_cnt computed in one go: must be a count of the very comparison that keeps rows solved
+    if "confident_cnt" in key_site:
+        g, n, v = key_site["confident_cnt"]
+        cname = v.id if isinstance(v, ast.Name) else None
+        has_counter = cname is not None and any(isinstance(x, ast.AugAssign) and isinstance(x.target, ast.Name) and x.target.id == cname for x in own_nodes(g.node))
+        if cname is not None and not has_counter:
+            # arrays compared with the threshold for the count vs. for the demotion
+            def cmp_arrays(e):
+                out = set()
+                for c in ast.walk(e):
+                    if isinstance(c, ast.Compare) and "threshold" in names_in(c):
+                        out |= {x for x in names_in(c) if x != "threshold"}
+                return out
+            count_arr = set()
+            for _, val, _i in assignments_to(g, cname):
+                count_arr |= cmp_arrays(val)
+                for nm in names_in(val):
+                    for _, v2, _j in assignments_to(g, nm):
+                        count_arr |= cmp_arrays(v2)
+            dem_arr = set()
+            gcfg = CFG(g.node)
+            from ..util import zip_partner
+
+            for st2 in pl.stages:
+                if st2.callee is g:
+                    for s2 in st2.stores:
+                        if pl.solved_col.text in s2.keytexts and s2.func is g:
+                            for c, p in s2.raw_guards:
+                                for nm in names_in(c) - {"threshold"}:
+                                    zp = zip_partner(g, nm)
+                                    if zp and isinstance(zp[2][zp[1]], ast.Name):
+                                        src = zp[2][zp[1]].id
+                                        dem_arr.add(src)
+                                        # a boolean array zipped in: follow to the compared array
+                                        for _, v3, _k in assignments_to(g, src):
+                                            dem_arr |= cmp_arrays(v3)
+            ok = bool(count_arr) and bool(count_arr & dem_arr)
+            ctx.instance("C18-Z3", "confident_cnt counts a comparison on %s; demotion compares %s" % (sorted(count_arr), sorted(dem_arr)), g.loc(n), ok=ok)
+            if not ok:
+                ctx.finding("C18-Z3", "stats:confident_cnt:source", g.loc(n), "confident_cnt is computed from a comparison on %s while rows are kept/demoted by a comparison on %s: the count and the number of rows left solved can differ" % (sorted(count_arr) or "?", sorted(dem_arr) or "?"))
     # ---------------------------------------------------------------- Z4
     for k, (g, n, v) in sorted(key_site.items()):
         ok = isinstance(n, ast.Assign) and is_int_count(g, v)
